@@ -19,6 +19,7 @@ import (
 	"slices"
 	"strings"
 	"time"
+	"unicode/utf8"
 
 	"github.com/saucelabs/forwarder/hostsfile"
 	"github.com/saucelabs/forwarder/httplog"
@@ -30,6 +31,7 @@ import (
 	"github.com/saucelabs/forwarder/pac"
 	"github.com/saucelabs/forwarder/ruleset"
 	"go.uber.org/multierr"
+	"golang.org/x/net/idna"
 	"golang.org/x/sync/errgroup"
 )
 
@@ -625,6 +627,13 @@ func (hp *HTTPProxy) isLocalhost(host string) bool {
 	host = strings.TrimSuffix(strings.ToLower(host), ".")
 	if i := strings.IndexByte(host, '%'); i >= 0 && strings.Contains(host, ":") {
 		host = host[:i]
+	}
+
+	// The transport maps a non-ASCII name to ASCII before it dials, judge the name that will be dialled.
+	if strings.IndexFunc(host, func(r rune) bool { return r >= utf8.RuneSelf }) >= 0 {
+		if a, err := idna.Lookup.ToASCII(host); err == nil {
+			host = strings.TrimSuffix(a, ".")
+		}
 	}
 
 	if slices.Contains(hp.localhost, host) {
